@@ -240,6 +240,12 @@ func fixtureMain(args []string) error {
 		if err != nil {
 			return fmt.Errorf("fixture %d: cannot open %s as a group: %w", c.Id, d, err)
 		}
+		if cg == nil { // nothing to read through: recorded as a refused reading
+			c.Got, c.Err, c.Errs = "0", true, "OpenExisting returned no handle and no error"
+			out.Write(c)
+			os.RemoveAll(d)
+			continue
+		}
 		var v uint64
 		var e error
 		switch c.Reader {
